@@ -17,6 +17,7 @@ type regime struct {
 	seeds    [][]int
 	depth    int
 	dups     []int
+	spread   bool
 }
 
 func seedOrders(n int) [][]int {
